@@ -76,6 +76,9 @@ def _case(draw):
         opts["optimizeCFF"] = draw(st.sampled_from([0, 1, 1]))
     if draw(st.sampled_from([True, False, False, False])):
         opts["skipExportGlyphs"] = [draw(st.sampled_from(names))]
+        if "nest" in names and draw(st.booleans()):
+            # a non-exported pure composite of another non-exported glyph, used by an exported composite
+            opts["skipExportGlyphs"] = [names[0], "twice"]
     if draw(st.sampled_from([True, False, False, False])):
         spec.setdefault("lib", {})["com.github.googlei18n.ufo2ft.filters"] = [draw(st.sampled_from([{"name": "decomposeTransformedComponents", "pre": True}, {"name": "propagateAnchors", "pre": True}, {"name": "flattenComponents", "pre": True}]))]
     simple = [g["name"] for g in spec["glyphs"] if g.get("contours") and not g.get("components") and g["name"] != ".notdef"]
